@@ -121,8 +121,9 @@ def _write_history(path, fmt, traj, blocks, cell, time, mode="w", ragged=None, c
                 after = ragged[2] if len(ragged) > 2 else "close"
 
                 def bad_write():
-                    if kind in ("atoms+1", "atoms-1"):
-                        other = _traj(traj.n_atoms + (1 if kind == "atoms+1" else -1), cell, 99)
+                    if kind in ("atoms+1", "atoms-1", "atoms=1"):
+                        # atoms=1: a one-atom array is what an array library would silently broadcast over all atoms
+                        other = _traj({"atoms+1": traj.n_atoms + 1, "atoms-1": traj.n_atoms - 1, "atoms=1": 1}[kind], cell, 99)
                         writers.write_block(f, fmt, other, lo, lo + b, with_cell=cell, with_time=time, first=(bi == 0))
                     elif kind == "cell-drop":
                         writers.write_block(f, fmt, traj, lo, lo + b, with_cell=False, with_time=time, first=(bi == 0))
@@ -226,7 +227,7 @@ def incremental_job(args):
                 # ---- (b) ragged writes at every position >= 1
                 if fmt == "h5-append":
                     continue
-                kinds = ["atoms+1", "atoms-1"]
+                kinds = ["atoms+1", "atoms-1", "atoms=1"]
                 # cell presence is per-file state for these; PDB holds one CRYST1 header (later cell arguments are
                 # ignored, the file cannot become ragged), xyz has no cell, lammpstrj/dtr always need one
                 if base in ("h5", "nc", "dcd", "xtc", "trr", "mdcrd", "gro"):
@@ -378,7 +379,7 @@ def run(ctx):
         "crash_points_judged_ok": crash_ok, "ragged_outcomes": rstats,
         "crash_before_flush_outcomes(recorded,not judged)": unj,
         "axes": {"formats": FORMATS + ["h5-append"], "crash_formats": CRASH_FORMATS, "n": ns,
-                 "ragged_kinds": ["atoms+1", "atoms-1", "cell-drop/add", "time-drop/add"]},
+                 "ragged_kinds": ["atoms+1", "atoms-1", "atoms=1", "cell-drop/add", "time-drop/add"]},
     }
 
 
